@@ -216,6 +216,17 @@ func (s Sample) NumBuckets() int {
 	return 0
 }
 
+// NonZeroBuckets counts populated buckets.
+func (s Sample) NonZeroBuckets() int {
+	switch s.Kind {
+	case KHist:
+		return len(bucketMapInt(s.H.PositiveSpans, s.H.PositiveBuckets)) + len(bucketMapInt(s.H.NegativeSpans, s.H.NegativeBuckets))
+	case KFHist:
+		return len(bucketMapFloat(s.FH.PositiveSpans, s.FH.PositiveBuckets)) + len(bucketMapFloat(s.FH.NegativeSpans, s.FH.NegativeBuckets))
+	}
+	return 0
+}
+
 // SortedTimes returns the keys of m in increasing order.
 func SortedTimes[V any](m map[int64]V) []int64 {
 	ts := make([]int64, 0, len(m))
